@@ -450,30 +450,57 @@ func (self *visitorUserNode) OnObjectBegin(capacity int) error {
 }
 
 // MapKey maybe int32/sint32/uint32/uint64 etc....
-func (self *visitorUserNode) encodeMapKey(key string, t proto.Type) error {
-	switch t {
-	case proto.INT32:
-		t, _ := strconv.ParseInt(key, 10, 32)
-		if err := self.p.WriteInt32(int32(t)); err != nil {
+func (self *visitorUserNode) encodeMapKey(key string, typ proto.Type) error {
+	switch typ {
+	case proto.INT32, proto.SINT32, proto.SFIX32:
+		t, err := strconv.ParseInt(key, 10, 32)
+		if err != nil {
 			return err
 		}
-	case proto.UINT32:
-		t, _ := strconv.ParseInt(key, 10, 32)
-		if err := self.p.WriteUint32(uint32(t)); err != nil {
+		switch t32 := int32(t); {
+		case typ == proto.SINT32:
+			return self.p.WriteSint32(t32)
+		case typ == proto.SFIX32:
+			return self.p.WriteSfixed32(t32)
+		default:
+			return self.p.WriteInt32(t32)
+		}
+	case proto.UINT32, proto.FIX32:
+		t, err := strconv.ParseUint(key, 10, 32)
+		if err != nil {
 			return err
 		}
-	case proto.UINT64:
-		t, _ := strconv.ParseInt(key, 10, 64)
-		if err := self.p.WriteUint64(uint64(t)); err != nil {
+		if typ == proto.FIX32 {
+			return self.p.WriteFixed32(uint32(t))
+		}
+		return self.p.WriteUint32(uint32(t))
+	case proto.UINT64, proto.FIX64:
+		t, err := strconv.ParseUint(key, 10, 64)
+		if err != nil {
 			return err
 		}
-	case proto.INT64:
-		t, _ := strconv.ParseInt(key, 10, 64)
-		if err := self.p.WriteInt64(int64(t)); err != nil {
+		if typ == proto.FIX64 {
+			return self.p.WriteFixed64(t)
+		}
+		return self.p.WriteUint64(t)
+	case proto.INT64, proto.SINT64, proto.SFIX64:
+		t, err := strconv.ParseInt(key, 10, 64)
+		if err != nil {
 			return err
+		}
+		switch {
+		case typ == proto.SINT64:
+			return self.p.WriteSint64(t)
+		case typ == proto.SFIX64:
+			return self.p.WriteSfixed64(t)
+		default:
+			return self.p.WriteInt64(t)
 		}
 	case proto.BOOL:
-		t, _ := strconv.ParseBool(key)
+		t, err := strconv.ParseBool(key)
+		if err != nil {
+			return err
+		}
 		if err := self.p.WriteBool(t); err != nil {
 			return err
 		}
